@@ -910,6 +910,7 @@ for _T in (SBytes, SStr):
 @method(SBytes, "decode")
 def _decode(it, s, *a, **k):
     enc = (a[0].concrete() if a else (k["encoding"].concrete() if "encoding" in k else "utf-8")).lower().replace("_", "-")
+    enc = "utf-8" if enc == "utf8" else enc  # same codec, one uninterpreted symbol
     err = a[1].concrete() if len(a) > 1 else (k["errors"].concrete() if "errors" in k else "strict")
     c = s.concrete()
     if c is not None:
@@ -941,6 +942,7 @@ def _decode(it, s, *a, **k):
 @method(SStr, "encode")
 def _encode(it, s, *a, **k):
     enc = (a[0].concrete() if a else (k["encoding"].concrete() if "encoding" in k else "utf-8")).lower().replace("_", "-")
+    enc = "utf-8" if enc == "utf8" else enc  # same codec, one uninterpreted symbol
     err = a[1].concrete() if len(a) > 1 else (k["errors"].concrete() if "errors" in k else "strict")
     c = s.concrete()
     if c is not None:
